@@ -176,7 +176,11 @@ func (x *g) genMethod(sv *spec.Service, j int, used map[string]bool) {
 	}
 	// validation profile: carry a single-validation type in the body of payload and result
 	if len(x.solo) > 0 && !streaming && m.Payload != nil && m.Payload.Type.Kind == spec.Object && x.chance(2, 3) {
-		m.Payload.Type.Attrs = append(m.Payload.Type.Attrs, &spec.Attr{Name: "solo_in", Type: &spec.Type{Kind: spec.Ref, Ref: x.solo[x.r.Intn(len(x.solo))]}})
+		first := x.solo[x.r.Intn(len(x.solo))]
+		m.Payload.Type.Attrs = append(m.Payload.Type.Attrs, &spec.Attr{Name: "solo_in", Type: &spec.Type{Kind: spec.Ref, Ref: first}})
+		if second := x.solo[x.r.Intn(len(x.solo))]; second != first && len(x.solo) > 2 {
+			m.Payload.Type.Attrs = append(m.Payload.Type.Attrs, &spec.Attr{Name: "solo_in2", Type: &spec.Type{Kind: spec.Ref, Ref: second}})
+		}
 	}
 	// a map of primitives that genHTTP may send in the query string (name[key]=value)
 	if (x.o.Profile == "http-loc" || x.o.Profile == "mixed") && m.Payload != nil && m.Payload.Type.Kind == spec.Object && x.chance(1, 4) {
